@@ -716,8 +716,14 @@ class CounterInterp:
             if f.attr == 'acquire':
                 # result tested by the following branch node (same AST) or dropped
                 nxt = [e.dst for e in normal]
+                # (an acquire that raises - a timeout the lock refuses - has acquired nothing: the state travels on unchanged)
+                raised_ = []
+                for e in exc:
+                    sx = st.copy()
+                    sx.trace.append(f'{g.loc(n)} TL.acquire raised {sorted(e.classes or [])} (nothing acquired)')
+                    raised_.append((e, sx))
                 if all(x.kind == 'branch' and x.meta['test'] is call for x in nxt):
-                    return [(e, st.copy()) for e in normal]
+                    return [(e, st.copy()) for e in normal] + raised_
                 if not call.args and not call.keywords:
                     s = st.copy()
                     s.v['DEPTH'] = s.v['DEPTH'] + Lin(0, 1)
@@ -748,7 +754,7 @@ class CounterInterp:
                     for e in normal:
                         res_.append((e, s1.copy()))
                         res_.append((e, s2.copy()))
-                    return res_
+                    return res_ + raised_
                 raise Undecided(f'result of TL.acquire(...) is not tested at {g.loc(n)}')
         info = n.meta.get('callee') or callee_info(g, call)
         if info['kind'] == 'package' and depth < 4:
